@@ -12,7 +12,7 @@ BRIDGES = ['br_perm_', 'br_ea_', 'br_selectivity_', 'br_pureflux_', 'br_conv_', 
 PROPS_V = 'Props/C12.v'
 EXTRA_TARGETS = ['Model/NumCheck.vo']
 BUDGET = {'quick': 600, 'thorough': 15000}
-ORACLE_RULE = ('1..6 experiments per component at distinct temperatures 273..400 K in random order (other component\'s experiments interleaved), units '
+ORACLE_RULE = ('1..6 experiments per component at temperatures 273..400 K at least 2 K apart, in random order (other component\'s experiments interleaved), units '
                '{kg, SI, GPU}, Ea -60..120 kJ/mol stated or unstated, on an exact Arrhenius line or noisy, query 260..420 K incl. exact experiment temperatures; '
                'numpy.linalg.lstsq is compared with the closed-form OLS slope on every regression case; non-trivial = at least 2 experiments')
 ASSUMPTIONS = ['numpy.linalg.lstsq on the [1/T, 1] design matrix returns the ordinary-least-squares solution (oracle; compared numerically here)',
@@ -29,7 +29,12 @@ DESIGN_REF = 'DESIGN.md section 6 C12'
 
 def make_data(rng, c, other, n=None, stated=None):
     n = n or rng.choice([1, 2, 2, 3, 4, 6])
-    temps = sorted(set(round(rng.uniform(273, 400), 2) for _ in range(n)))
+    # experiment temperatures at least 2 K apart: the regression of ln P against 1/T is ill-conditioned for nearly equal
+    # temperatures and the comparison with the closed form would then measure rounding, not the property
+    temps = []
+    for t in sorted(set(round(rng.uniform(273, 400), 2) for _ in range(n))):
+        if not temps or t - temps[-1] >= 2.0:
+            temps.append(t)
     rng.shuffle(temps)
     Ea = rng.uniform(-60000, 120000)
     stated = (rng.random() < 0.5) if stated is None else stated
